@@ -324,24 +324,92 @@ theorem wp_flushLoop {A} (fuel : Nat) {Q : Unit → St → Prop} {e : Ep} {l : L
             cases hg : dictGet e.dataChannels (s0 + 2 * k) with
             | none => rfl
             | some v => rw [hg] at this; cases this
-          have hpos := pendingCh_pos hc hid
-          have hcap := h.room.cap
-          have hslt : s0 + 2 * k < 65536 := by omega
-          have hw2 := hw1.assign (i := i) (s := s0 + 2 * k) (c := c) (by simpa using hc) hid
-            (by simpa using hnew) hslt
           dsimp only
           split
           · rename_i s1 hs1
-            have hs01 : s1 = s0 := by rw [hs0] at hs1; exact (Option.some.inj hs1).symm
+            have hs01 : s0 = s1 := by rw [hs0] at hs1; exact Option.some.inj hs1
             subst hs01
-            simp only [wp_pure, wp_bind, wp_modE, wp_chanSet, hpick]
-            refine hsend _ _ _ hw2 ⟨_, _, rest, _, _, _, _, _, rfl, by simp⟩ hslt ?_
-            rcases hpr0 with h' | h' | ⟨s, hs, _⟩
-            · exact Or.inl h'
-            · exact Or.inr (Or.inl h')
-            · rw [hid] at hs; cases hs
+            simp only [wp_pure, wp_bind, hpick]
+            split
+            · -- no stream id of the local parity below 65536 is free: the channel is closed
+              simp only [wp_bind]
+              refine wp_setReady hw1 (by simpa using hi) ?_
+              intro cs l1 hw2 hlen
+              simp only [wp_pure]
+              refine ih hw2 ?_
+              intro e' l2 hw3 hf
+              refine hq e' l2 hw3 (DataFrame.trans ⟨cs, _, rest, _, _, _, _, _, rfl, ?_⟩ hf)
+              simp at hlen; omega
+            · rename_i hle
+              have hslt : s0 + 2 * k < 65536 := by omega
+              have hw2 := hw1.assign (i := i) (s := s0 + 2 * k) (c := c) (by simpa using hc) hid
+                (by simpa using hnew) hslt
+              simp only [wp_pure, wp_bind, wp_modE, wp_chanSet]
+              refine hsend _ _ _ hw2 ⟨_, _, rest, _, _, _, _, _, rfl, by simp⟩ hslt ?_
+              rcases hpr0 with h' | h' | ⟨s, hs, _⟩
+              · exact Or.inl h'
+              · exact Or.inr (Or.inl h')
+              · rw [hid] at hs; cases hs
           · rename_i hnone
             rw [hs0] at hnone; cases hnone
+
+/-- `_transmit_reconfig()`: only the stream reset bookkeeping changes. -/
+theorem wp_transmitReconfig {A} {Q : Unit → St → Prop} {e : Ep} {l : List Out} (h : WF U n e)
+    (hq : ∀ e' l', WF U n e' → DataFrame e e' → Q () (e', l')) :
+    wp A transmitReconfig Q (e, l) := by
+  unfold transmitReconfig
+  simp only [wp_bind, wp_getE]
+  split
+  · generalize hst : ((e.reconfigQueue.filter fun x =>
+        !(e.dcQueue.map fun q => (e.chans[q.1]?).bind (·.id)).contains (some x)).take RECONFIG_MAX_STREAMS) = streams
+    have hsub : ∀ s ∈ streams, s ∈ e.reconfigQueue := by
+      intro s hs; rw [← hst] at hs
+      exact (List.mem_filter.mp (List.mem_of_mem_take hs)).1
+    have hlen : streams.length ≤ 135 := by
+      rw [← hst, List.length_take]; exact Nat.min_le_left _ _
+    split
+    · simp only [wp_pure]; exact hq e l h (DataFrame.refl _)
+    · simp only [wp_bind, wp_setE]
+      obtain ⟨ha0, ha1⟩ := h.rcReq
+      obtain ⟨hb0, hb1⟩ := h.rcResp
+      obtain ⟨hc0, hc1⟩ := tsn_minus_one_range e.tx.localTsn
+      have hstreams : ∀ s ∈ streams, s < 65536 := fun s hs => h.ch.rcq s (hsub s hs)
+      have hser : (RcParam.resetOut e.reconfigRequestSeq.toNat e.reconfigResponseSeq.toNat
+          (tsn_minus_one e.tx.localTsn).toNat streams).serialize =
+          .ok (RcParam.resetOut e.reconfigRequestSeq.toNat e.reconfigResponseSeq.toNat
+            (tsn_minus_one e.tx.localTsn).toNat streams).bytes := by
+        have h1 : e.reconfigRequestSeq.toNat < 4294967296 := by omega
+        have h2 : e.reconfigResponseSeq.toNat < 4294967296 := by omega
+        have h3 : (tsn_minus_one e.tx.localTsn).toNat < 4294967296 := by omega
+        simp only [RcParam.serialize, RcParam.inRange, h1, h2, h3, decide_true, Bool.true_and, List.all_eq_true,
+          decide_eq_true_eq]
+        rw [if_pos]
+        intro s hs; exact hstreams s hs
+      have hrc : RcOk (e.reconfigRequestSeq, e.reconfigResponseSeq, tsn_minus_one e.tx.localTsn, streams) := by
+        refine ⟨?_, hlen⟩
+        have := hser
+        simp only [RcParam.serialize] at this
+        split at this
+        · assumption
+        · cases this
+      simp only [hser, wp_liftO_ok]
+      have hw1 : WF U n { e with reconfigQueue := e.reconfigQueue.filter fun x => !streams.contains x
+                                 reconfigRequest := some (e.reconfigRequestSeq, e.reconfigResponseSeq,
+                                   tsn_minus_one e.tx.localTsn, streams)
+                                 reconfigRequestSeq := tsn_plus_one e.reconfigRequestSeq } :=
+        ⟨h.net, ⟨h.ch.dcIdx, h.ch.dcKeys, h.ch.qIdx, h.ch.qPR, h.ch.qPpid, h.ch.sid,
+          fun s hs => h.ch.rcq s (List.mem_filter.mp hs).1⟩, h.tx, h.rx, tsn_plus_one_range _, h.rcResp, h.sack,
+          h.room, h.ids, h.cap, h.tm1, h.tm2, h.tasks, (fun p hp => by cases hp; exact hrc)⟩
+      refine wp_sendChunk hw1 (reconfigChunk_inRange (by decide) ?_) ?_
+      · simp only [RcParam.bytes, List.length_append, length_u32be, length_u16sBytes]
+        omega
+      · intro d
+        refine wp_rcStart ?_
+        intro l'
+        exact hq _ _ ⟨hw1.net, hw1.ch, hw1.tx, hw1.rx, hw1.rcReq, hw1.rcResp, hw1.sack, hw1.room, hw1.ids, hw1.cap,
+          hw1.tm1, hw1.tm2, hw1.tasks, hw1.rcr⟩ ⟨_, _, _, _, _, _, _, _, rfl, Nat.le_refl _⟩
+  · simp only [wp_pure]
+    exact hq e l h (DataFrame.refl _)
 
 theorem wp_flush {A} {Q : Unit → St → Prop} {e : Ep} {l : List Out} (h : WF U n e)
     (hq : ∀ e' l', WF U n e' → DataFrame e e' → Q () (e', l')) : wp A flush Q (e, l) := by
@@ -349,6 +417,14 @@ theorem wp_flush {A} {Q : Unit → St → Prop} {e : Ep} {l : List Out} (h : WF 
   simp only [wp_bind, wp_getE]
   split
   · simpa using hq e l h (DataFrame.refl _)
-  · exact wp_flushLoop _ h hq
+  · simp only [wp_bind]
+    refine wp_flushLoop _ h ?_
+    intro e1 l1 hw1 hf1
+    simp only [wp_getE]
+    split
+    · refine wp_transmitReconfig hw1 ?_
+      intro e2 l2 hw2 hf2
+      exact hq e2 l2 hw2 (hf1.trans hf2)
+    · simp only [wp_pure]; exact hq e1 l1 hw1 hf1
 
 end Aiortc.Sctp.V2
